@@ -122,7 +122,7 @@ ENTRY = {'coq_dir': 'C19',
                'key), a lying length prefix never yields a peer; mDNS: every reported address is the parse of a TXT value of an additional record '
                'whose name is the first foreign PTR target, at most as many as TXT values, our own name is ignored. Inventory ties (sites, codecs, '
                'multiaddr codes, third-party limits) are theorems over tables generated from the Rust / vendored sources.',
- 'level_note': 'FIXED in this round: F-C19a (repo 73e6b26): simple-dns reserves memory for the record counts announced by the DNS header, ~9.4 MiB '
+ 'level_note': 'FIXED in this round: F-C19a (repo db7fd73): simple-dns reserves memory for the record counts announced by the DNS header, ~9.4 MiB '
                'for a 12..60-byte mDNS datagram; litep2p now refuses headers that announce more than the datagram can hold (witness '
                'corpus/C19/mdns_counts.case). Known finding class 1 (third party): yamux 0.13.10 computes `credit + DEFAULT_CREDIT` of a '
                'WindowUpdate|SYN frame in u32: panic where overflow checks are compiled in, silent wrap in release builds '
